@@ -229,6 +229,11 @@ Section Spec.
                  (filter (fun x => negb (code_name x =? n)) (o_jobs b)) &&
         (length (filter (fun x => code_name x =? n) (o_jobs a)) <=?
          length (filter (fun x => code_name x =? n) (o_jobs b))) &&
+        (* a job that ends leaves the certificate stored under its name in the cache:
+           "thereafter serves the new certificate" *)
+        ((length (filter (fun x => code_name x =? n) (o_jobs b)) <=?
+          length (filter (fun x => code_name x =? n) (o_jobs a))) ||
+         match ost a n with Some st => mem_cert st (o_cache a) | None => true end) &&
         (* a failed attempt changes nothing: the old certificate keeps being served *)
         ((ofl a n =? ofl b n) || (same_cache a b && same_store a b && same_jobs a b)) &&
         (* only the holder of the name's lock issues *)
